@@ -44,6 +44,11 @@ type c03Case struct {
 	ServerAt int    // which request (1-based)
 	ExtClose int    // >0: call Close() on the region client when the connection has seen this many operations
 	Slow     string // "" | writer | reader | fail (failure handler slowed at its log statements)
+	// BlockThen: what ends a connection whose Fault is a blocked write (the
+	// server stopped reading): "silence" (first request never answered: read
+	// timeout), "close" (Close() 3ms after the write blocked), or a server
+	// failure kind for the first request, released once the write has blocked.
+	BlockThen string
 }
 
 func (c c03Case) String() string {
@@ -58,7 +63,11 @@ func (c c03Case) String() string {
 		}
 		cs = append(cs, s)
 	}
-	return fmt.Sprintf("queue=%d flush=%v calls=%v fault=%v server=%s@%d extclose@%d slow=%s", c.Queue, c.Flush, cs, c.Fault, c.Server, c.ServerAt, c.ExtClose, c.Slow)
+	s := fmt.Sprintf("queue=%d flush=%v calls=%v fault=%v server=%s@%d extclose@%d slow=%s", c.Queue, c.Flush, cs, c.Fault, c.Server, c.ServerAt, c.ExtClose, c.Slow)
+	if c.BlockThen != "" {
+		s += " then=" + c.BlockThen
+	}
+	return s
 }
 
 type c03Tracked struct {
@@ -104,31 +113,54 @@ func runC03Case(c *fw.Ctx, id string, cs c03Case) {
 	regs := cl.CreateTable("t", [][]byte{[]byte("m")}, nil)
 	cl.EchoResults = true
 	var reqN int32
+	blockHit := make(chan struct{})
+	var blockOnce sync.Once
+	defer blockOnce.Do(func() { close(blockHit) })
+	srvKind, srvAt := cs.Server, cs.ServerAt
+	if cs.BlockThen != "" && cs.BlockThen != "close" {
+		srvKind, srvAt = cs.BlockThen, 1
+	}
 	cl.OnRequest = func(req *sim.Request) *sim.Reply {
-		if cs.Server == "" {
+		if srvKind == "" {
 			return nil
 		}
-		if int(atomic.AddInt32(&reqN, 1)) != cs.ServerAt {
+		if int(atomic.AddInt32(&reqN, 1)) != srvAt {
 			return nil
 		}
-		switch cs.Server {
+		var rep *sim.Reply
+		switch srvKind {
 		case "garbage":
-			return &sim.Reply{Raw: sim.RawFrame([]byte{0xff, 0xff, 0xff, 0xff, 0xff, 0xff, 0x01, 0x02})}
+			rep = &sim.Reply{Raw: sim.RawFrame([]byte{0xff, 0xff, 0xff, 0xff, 0xff, 0xff, 0x01, 0x02})}
 		case "fatal-exc":
-			return &sim.Reply{Exc: &sim.Exc{Class: sim.ExcAborted}}
+			rep = &sim.Reply{Exc: &sim.Exc{Class: sim.ExcAborted}}
 		case "fatal-exc-kill":
-			return &sim.Reply{Exc: &sim.Exc{Class: sim.ExcStopped, KillConn: true}}
+			rep = &sim.Reply{Exc: &sim.Exc{Class: sim.ExcStopped, KillConn: true}}
 		case "silence":
-			return &sim.Reply{Drop: true}
+			rep = &sim.Reply{Drop: true}
 		case "close-mid-frame":
-			return &sim.Reply{Raw: []byte{0, 0, 1, 0, 1, 2, 3}, KillConn: true}
+			rep = &sim.Reply{Raw: []byte{0, 0, 1, 0, 1, 2, 3}, KillConn: true}
 		case "unknown-call-id":
-			return &sim.Reply{Raw: sim.RawFrame([]byte{2, 0x08, 0x7f})}
+			rep = &sim.Reply{Raw: sim.RawFrame([]byte{2, 0x08, 0x7f})}
 		}
-		return nil
+		if rep != nil && cs.BlockThen != "" && !rep.Drop {
+			rep.Hold = blockHit // misbehave once the client's next write is stuck
+		}
+		return rep
 	}
 	var fc *faultconn.Conn
 	var rc hrpc.RegionClient
+	fault := cs.Fault
+	if fault != nil && fault.Mode == "block" {
+		f := *fault
+		f.OnHit = func() {
+			blockOnce.Do(func() { close(blockHit) })
+			c.Count("writes_blocked", 1)
+			if cs.BlockThen == "close" {
+				go func() { time.Sleep(3 * time.Millisecond); rc.Close() }()
+			}
+		}
+		fault = &f
+	}
 	var opsSeen int32
 	dial := cl.Dialer()
 	dialer := func(ctx context.Context, network, addr string) (net.Conn, error) {
@@ -136,7 +168,7 @@ func runC03Case(c *fw.Ctx, id string, cs c03Case) {
 		if err != nil {
 			return nil, err
 		}
-		fc = faultconn.New(conn, cs.Fault)
+		fc = faultconn.New(conn, fault)
 		switch cs.Slow {
 		case "writer":
 			fc.BeforeWriteReturn = func(int) { time.Sleep(2 * time.Millisecond) }
@@ -281,8 +313,24 @@ func runC03Case(c *fw.Ctx, id string, cs c03Case) {
 			time.Sleep(2 * time.Millisecond)
 		}
 	}
-	allDone := waitAll(func(t *c03Tracked) bool { return !t.post }, 4*time.Second)
+	firstBound := 4 * time.Second
+	if cs.BlockThen != "" {
+		firstBound = time.Second // read timeout is 300ms; see below for the rest of the bound
+	}
+	allDone := waitAll(func(t *c03Tracked) bool { return !t.post }, firstBound)
 	failed := rc.Dial(context.Background()) != nil
+	if failed && !allDone && cs.BlockThen != "" {
+		allDone = waitAll(func(t *c03Tracked) bool { return !t.post }, 3*time.Second)
+	}
+	if !failed && cs.BlockThen != "" && fc != nil && fc.Fired() {
+		// the blocked write was the first request: nothing was outstanding, so
+		// nothing could tell the client that the server is gone. The property
+		// speaks about connections that fail: end this one with Close().
+		c.Count("blocked_first_request_ended_by_close", 1)
+		within(2*time.Second, rc.Close)
+		allDone = waitAll(func(t *c03Tracked) bool { return !t.post }, 4*time.Second)
+		failed = rc.Dial(context.Background()) != nil
+	}
 	fired := fc != nil && fc.Fired()
 	if fired {
 		c.Count("fault_fired_"+cs.Fault.Kind, 1)
@@ -369,7 +417,12 @@ func runC03Case(c *fw.Ctx, id string, cs c03Case) {
 			c.Violate(id, "conn:goroutines-left", fmt.Sprintf("%d goroutine(s) of the failed region client still alive after 1s: %s\n%s", n, descr, firstLines(dump, 30)), cs.String())
 		}
 	}
-	rc.Close()
+	if !within(2*time.Second, rc.Close) {
+		c.Violate(id, "conn:close-blocked", "Close() of the region client did not return within 2s: "+descr, cs.String())
+		if fc != nil {
+			fc.Close() // let the stuck goroutines go so that later cases start clean
+		}
+	}
 	close(stop)
 	drains.Wait()
 	for i := 0; i < 100; i++ {
@@ -410,7 +463,8 @@ func init() {
 		Rule: "for seeded workloads (2..7 submissions: unbatched calls sent from caller goroutines, batchable single calls, " +
 			"batches of 1..6, some with already-cancelled contexts) on one real region client: every fault position (kind in " +
 			"{Read, Write, SetReadDeadline, SetWriteDeadline}, k = 1..N+2 where N is the dry-run operation count) x mode " +
-			"{error, partial write, short read + EOF, timeout}, external Close at every operation count, and server-side " +
+			"{error, partial write, short read + EOF, timeout}, external Close at every operation count, a k-th write that blocks " +
+			"(server stopped reading) until the connection is closed x {read timeout, Close, undecodable frame, fatal exception, close mid-frame}, and server-side " +
 			"failures at the r-th request {undecodable frame, unknown call id, server-fatal exception with/without close, " +
 			"connection closed mid-frame, silence until the read timeout}; each under schedules {plain, slow writer, slow " +
 			"reader, slow failure handler}. distinct = (workload, fault position/mode, schedule); non-trivial = the fault fired or the server " +
@@ -425,7 +479,7 @@ func init() {
 		Floors: func(tier string) map[string]int64 {
 			return map[string]int64{"cases": 1500, "fault_positions_fired": 500, "fault_fired_Read": 30, "fault_fired_Write": 30,
 				"fault_fired_SetReadDeadline": 30, "fault_fired_SetWriteDeadline": 3, "connections_failed": 700, "calls_accounted": 15000,
-				"goroutine_census_checks": 300, "server_fault_cases": 40, "external_close_cases": 20}
+				"goroutine_census_checks": 300, "server_fault_cases": 40, "external_close_cases": 20, "writes_blocked": 50}
 		},
 		Run: runC03,
 	})
@@ -483,6 +537,18 @@ func runC03(c *fw.Ctx) {
 				cs.Slow = slow
 				cs.ExtClose = k
 				run(cs, true)
+			}
+			// the server stops reading: the k-th write blocks (after 0..n bytes)
+			// until the connection is closed, while the connection fails for
+			// another reason
+			for k := 2; k <= maxK[faultconn.Write]; k++ {
+				for _, then := range []string{"silence", "close", "garbage", "fatal-exc", "close-mid-frame"} {
+					cs := base
+					cs.Slow = slow
+					cs.Fault = &faultconn.Fault{Kind: faultconn.Write, K: k, Mode: "block", Bytes: r.Intn(9)}
+					cs.BlockThen = then
+					run(cs, true)
+				}
 			}
 			for _, sf := range []string{"garbage", "fatal-exc", "fatal-exc-kill", "silence", "close-mid-frame", "unknown-call-id"} {
 				for at := 1; at <= len(base.Calls); at += 1 + r.Intn(2) {
